@@ -29,11 +29,12 @@ var Props = map[string]*PropSpec{}
 type seqEngine struct {
 	// script, when set, builds the whole operation list up front (a parameterised scenario skeleton)
 	// instead of generating operations online
-	script     func(rng *simrt.Rng, cfg *Cfg) []Op
-	profile    Profile
-	nontrivial func(out *SeqOutcome) bool
-	saveLoad   bool
-	admission  bool
+	script       func(rng *simrt.Rng, cfg *Cfg) []Op
+	profile      Profile
+	nontrivial   func(out *SeqOutcome) bool
+	saveLoad     bool
+	streamFaults bool // save/load with truncated or failing streams (relaxed oracle, separate engine)
+	admission    bool
 }
 
 func (e *seqEngine) Run(a *agg, spec *PropSpec, seed uint64) {
@@ -78,6 +79,13 @@ func (e *seqEngine) Run(a *agg, spec *PropSpec, seed uint64) {
 				pl.ReadAdv = 1 + int64(rng.Intn(1000))
 			default:
 				pl.ReadAdv = d/int64(1+rng.Intn(60)) + 1
+			}
+		}
+		if e.streamFaults {
+			pl.Fault = []string{"truncate", "truncate", "readerr", "writeerr"}[rng.Intn(4)]
+			pl.FaultAt = rng.Intn(1001) // per mille of the stream (reads) ...
+			if pl.Fault == "writeerr" {
+				pl.FaultAt = rng.Intn(600) // ... or bytes (writes)
 			}
 		}
 		sc.SaveLoad = pl
